@@ -24,7 +24,7 @@ func init() {
 
 func isAbortCall(ins ssa.Instruction) bool {
 	cc := ssax.CallOf(ins)
-	return cc != nil && ssax.CalleeName(cc) == core.Mod+"/server.abort"
+	return isAbortCallee(cc)
 }
 
 func runC15(c *core.Ctx) {
@@ -94,7 +94,7 @@ func runC15(c *core.Ctx) {
 	}
 
 	// ---- R15.2
-	ab := c.P.Func("server", "abort")
+	ab := findFunc(c, "server", "abort", roleAbort)
 	if ab == nil {
 		c.Undecided("R15.2", "server.abort", "-", "anchor not found")
 	} else {
